@@ -294,6 +294,34 @@ def run_case(case):
                 except Exception as e:
                     bad("get_params raises %s" % type(e).__name__, "after set_params", "key %s: %s %s" % (k, e, odesc))
                     continue
+                if C["fit"] and K.is_est(nv) and len(hist) <= case["bdepth"]:
+                    # get_params reports what rebuilds the object: the object and its clone must behave identically
+                    try:
+                        twin = clone(e2)
+                        dat = K.data(C["kind"], 0)
+                        outs = []
+                        for obj in (e2, twin):
+                            try:
+                                numpy.random.seed(0)
+                                K.fit(obj, C["kind"], dat)
+                                outs.append(("ok", K.observe(obj, C["kind"], dat)))
+                            except Exception as ex:
+                                outs.append(("raises", type(ex).__name__))
+                        if outs[0][0] != outs[1][0]:
+                            bad("after set_params the object and its clone behave differently", "one of them raises",
+                                "object: %r clone: %r key %s %s" % (outs[0][1] if outs[0][0] == "raises" else "ok",
+                                                                     outs[1][1] if outs[1][0] == "raises" else "ok", k, odesc))
+                        elif outs[0][0] == "ok":
+                            dd = K.same_obs(outs[0][1], outs[1][1])
+                            if dd:
+                                bad("after set_params the object and its clone behave differently", "outputs", "%s key %s %s" % (dd, k, odesc))
+                    except Exception as ex:
+                        cc = "set %s" % k.rsplit("__", 1)[-1]
+                        if hasattr(e2, "models") and hasattr(e2, "method") and any(
+                                getattr(m_, "method", e2.method) != e2.method for m_ in e2.models):
+                            cc = "a member's method differs from the stacking method"
+                        bad("clone raises %s" % type(ex).__name__, "after %s" % cc, "%s %s" % (str(ex)[:200], odesc))
+                    e2 = build(tuple(hist) + (op,))
                 exp = _expected_after_set(before, k, nv, C['prefix'])
                 if after != exp:
                     d = _diff(exp, after)
